@@ -377,6 +377,93 @@ func edgeDominates(from, to, b *ssa.BasicBlock) bool {
 
 // facts returns the branch facts that hold whenever control is in block b.
 func facts(b *ssa.BasicBlock) []EdgeFact {
+	out := directFacts(b)
+	return append(out, impliedFacts(out, 0, map[*ssa.Phi]bool{})...)
+}
+
+// impliedFacts: a dominating test of a phi whose incoming values are constants / known non-nil values
+// tells which predecessor control came through; when only one predecessor is consistent with the
+// outcome of the test, everything known on that predecessor (and on its edge into the phi's block)
+// is known too. This recovers the guard of
+//
+//	var e error; if n > remaining { e = errors.New(..) } ; if e != nil { return e }; use(n)
+//
+// (the shape an extracted-and-expanded checking helper has) for the code after the second test.
+func impliedFacts(fs []EdgeFact, depth int, seen map[*ssa.Phi]bool) []EdgeFact {
+	if depth > 3 {
+		return nil
+	}
+	var out []EdgeFact
+	for _, f := range fs {
+		var phi *ssa.Phi
+		want := 0 // 1: phi is nil/false, 2: phi is non-nil/true
+		if c, ok := normFact(f); ok && (c.Op == token.EQL || c.Op == token.NEQ) {
+			x, y := c.X, c.Y
+			if isNilConst(x) {
+				x, y = y, x
+			}
+			if p, ok := x.(*ssa.Phi); ok && isNilConst(y) {
+				phi = p
+				if c.Op == token.EQL {
+					want = 1
+				} else {
+					want = 2
+				}
+			}
+		} else {
+			c, taken := f.Cond, f.Taken
+			for {
+				if u, ok := c.(*ssa.UnOp); ok && u.Op == token.NOT {
+					c, taken = u.X, !taken
+					continue
+				}
+				break
+			}
+			if p, ok := c.(*ssa.Phi); ok {
+				phi = p
+				if taken {
+					want = 2
+				} else {
+					want = 1
+				}
+			}
+		}
+		if phi == nil || seen[phi] {
+			continue
+		}
+		seen[phi] = true
+		var consistent []int
+		for i, e := range phi.Edges {
+			state := 0
+			if isNilConst(e) {
+				state = 1
+			} else if b, ok := constBool(e); ok {
+				if b {
+					state = 2
+				} else {
+					state = 1
+				}
+			} else if isErrorType(e.Type()) && definitelyNonNilErr(e, nil) {
+				state = 2
+			}
+			if state == 0 || state == want {
+				consistent = append(consistent, i)
+			}
+		}
+		if len(consistent) != 1 {
+			continue
+		}
+		pred := phi.Block().Preds[consistent[0]]
+		var more []EdgeFact
+		more = append(more, edgeFactOf(pred, phi.Block())...)
+		more = append(more, directFacts(pred)...)
+		out = append(out, more...)
+		out = append(out, impliedFacts(more, depth+1, seen)...)
+	}
+	return out
+}
+
+func directFacts(b *ssa.BasicBlock) []EdgeFact {
 	var out []EdgeFact
 	for d := b; d != nil; d = d.Idom() {
 		if len(d.Instrs) == 0 {
